@@ -253,7 +253,7 @@ _SPLIT_RE = re.compile(r"^Iteration (\d+): Split cluster (\d+) into (\d+) and (\
 _STOP_RE = re.compile(r"^No further splits accepted after (\d+) iterations")
 
 
-def replay_state(ck, np, cluster, st, variant, predicted_tbl, stats, history=None):
+def replay_state(ck, np, cluster, st, variant, predicted_tbl, stats, history=None, forced_reuse=None):
     """Replay one terminal spec state (pc = done) into the real HierarchicalGaussianMixture.  With `history`, every other
     behaviour is replayed into the object a PREVIOUS behaviour of the same configuration was fitted and queried on
     (action Refit of HGMSplit: fit -> predict -> fit on other data -> predict on one object)."""
@@ -274,24 +274,49 @@ def replay_state(ck, np, cluster, st, variant, predicted_tbl, stats, history=Non
     sc = Script(np, log, n, d, ctype, variant)
     sc.cov_variant = "good"
     Fake = make_fake(sc)
-    hkey = (d, normalize, ctype, modifier, use_none, mp, mi)
+    hgm = cluster.HierarchicalGaussianMixture(
+        n_init=1, max_iterations=mi, min_points=None if use_none else mp, threshold_modifier=modifier,
+        covariance_type=ctype, verbose=True, normalize=normalize)
+    hkey = (mp, mi)
     prev = history.get(hkey) if history is not None else None
-    reused = prev is not None and (variant // 2) % 3 != 0   # two of three behaviours refit an existing object
+    reused = prev is not None and (forced_reuse if forced_reuse is not None else (variant // 2) % 3 != 0)   # two of three behaviours refit an existing object
     if reused:
-        hgm, prev_K, prev_rep = prev
-        stats["refits"] = stats.get("refits", 0) + 1
-        if st["K"] < prev_K:
-            stats["refits_K_decreased"] = stats.get("refits_K_decreased", 0) + 1
-    else:
-        hgm = cluster.HierarchicalGaussianMixture(
-            n_init=1, max_iterations=mi, min_points=None if use_none else mp, threshold_modifier=modifier,
-            covariance_type=ctype, verbose=True, normalize=normalize)
+        # HGMSplit!Refit: the object is first fitted (and queried) on the data of an EARLIER behaviour of the same constructor
+        # parameters - the one with the most clusters seen so far - under this replay's configuration variant
+        st0 = prev
+        n0 = st0["n"]
+        X0 = np.zeros((n0, d))
+        X0[:, 0] = spacing * np.arange(1, n0 + 1)
+        if d == 2:
+            X0[:, 1] = 0.5 * spacing * (np.arange(n0) % 2)
+        sc0 = Script(np, list(st0["log"]), n0, d, ctype, variant)
+        sc0.cov_variant = "good"
+        sc0.hgm = hgm
+        real0 = cluster.GaussianMixture
+        cluster.GaussianMixture = make_fake(sc0)
+        try:
+            with contextlib.redirect_stdout(io.StringIO()), warnings.catch_warnings():
+                warnings.simplefilter("ignore")
+                hgm.fit(X0, np.arange(1, n0 + 1, dtype=float))
+                hgm.predict(X0)
+                hgm.predict_proba(X0)
+        except Exception:
+            reused = False   # the earlier behaviour does not replay under this variant: judged on its own replay, not here
+            hgm = cluster.HierarchicalGaussianMixture(
+                n_init=1, max_iterations=mi, min_points=None if use_none else mp, threshold_modifier=modifier,
+                covariance_type=ctype, verbose=True, normalize=normalize)
+        finally:
+            cluster.GaussianMixture = real0
+        if reused:
+            stats["refits"] = stats.get("refits", 0) + 1
+            if st["K"] < st0["K"]:
+                stats["refits_K_decreased"] = stats.get("refits_K_decreased", 0) + 1
     sc.hgm = hgm
     rep = {"state": {k: st[k] for k in ("n", "minPts", "maxIter", "clusters", "labels", "K", "log", "splits")},
            "variant": variant, "config": dict(d=d, normalize=normalize, covariance_type=ctype, threshold_modifier=modifier,
                                              min_points=None if use_none else mp, max_iterations=mi, spacing=spacing),
-           "refit_of_object_previously_fitted_with_K": prev[1] if reused else None,
-           "previous_behaviour_on_the_same_object": prev[2] if reused else None}
+           "refit_of_object_previously_fitted_with_K": prev["K"] if reused else None,
+           "previous_behaviour_on_the_same_object": ({k: prev[k] for k in ("n", "minPts", "maxIter", "clusters", "labels", "K", "log", "splits")} if reused else None)}
     real = cluster.GaussianMixture
     out = io.StringIO()
     cluster.GaussianMixture = Fake
@@ -401,7 +426,8 @@ def replay_state(ck, np, cluster, st, variant, predicted_tbl, stats, history=Non
                                  dict(rep, query=Q[i].tolist()))
                     return
         if history is not None:
-            history[hkey] = (hgm, K, {"state": rep["state"], "variant": variant})
+            if hkey not in history or K >= history[hkey]["K"]:
+                history[hkey] = st
         if len(ck.samples) < 2 and len(want_splits) >= 2:
             ck.sample({"binding": "B", "n": n, "min_points": mp, "max_iterations": mi, "config": rep["config"],
                        "oracle_log": [{k: (sorted(v) if isinstance(v, frozenset) else v) for k, v in e.items()} for e in log],
@@ -477,6 +503,16 @@ def run_generator(name, consts, seed, tier, mp_pool, nvariants):
     res.cleanup()
     info["terminal_states"] = len(done_blocks)
     chunk = 250
+
+    def block_K(blk):
+        for ln in blk:
+            if ln.startswith("/\\ K = "):
+                return int(ln[len("/\\ K = "):])
+        return 0
+    # deterministic order (TLC's dump order depends on worker scheduling); inside a chunk the behaviours with the most clusters
+    # come first, so that the later ones are refits of an object that had MORE clusters before (HGMSplit!Refit)
+    done_blocks.sort(key=lambda b: "\n".join(b))
+    done_blocks = [b for a in range(0, len(done_blocks), chunk) for b in sorted(done_blocks[a:a + chunk], key=lambda x: -block_K(x))]
     asyncs = [mp_pool.apply_async(_replay_chunk, ((done_blocks[a:a + chunk], a, nvariants, predicted, seed, tier),))
               for a in range(0, len(done_blocks), chunk)]
     return info, asyncs
@@ -1319,16 +1355,11 @@ def do_replay(ck, path):
         stats = {"replayed": 0, "with_split": 0, "predictions": 0, "centre_exact": 0}
         history = None
         pv = rp.get("previous_behaviour_on_the_same_object")
-        if pv:   # the behaviour was replayed into an object already fitted and queried once: rebuild that object first
-            class _Quiet:
-                samples = []
-                def violation(self, *a): return True
-                def sample(self, *a, **k): pass
-            history = {}
-            st0, tbl0 = thaw(pv["state"])
-            replay_state(_Quiet(), np, cluster, st0, pv["variant"], tbl0, stats, history)
+        if pv:   # the behaviour was replayed into an object already fitted and queried on an earlier behaviour's data
+            st0, _ = thaw(pv)
+            history = {(st0["minPts"], st0["maxIter"]): st0}
         st, tbl = thaw(rp["state"])
-        replay_state(ck, np, cluster, st, rp["variant"], tbl, stats, history)
+        replay_state(ck, np, cluster, st, rp["variant"], tbl, stats, history, forced_reuse=bool(pv))
     elif "trace" in rp and "X" in rp:   # binding A: re-run the real fit, re-validate its trace
         c = {k: rp[k] for k in ("i", "d", "n", "kind", "wkind", "scaled", "normalize", "modifier", "max_iterations", "min_points", "style", "ctype")}
         c["X"] = np.array(rp["X"], dtype=float)
